@@ -282,9 +282,10 @@ def arg_alphabet(names, tier):
 
 
 def call_texts(forms, max_args):
-    """Every call of <= max_args arguments; yields (args text, [probe]) where a probe is
-    (offset in args text, pre (tuple of argument descriptors before the slot), cur)."""
-    yield '', [(0, (), ('s3',))]
+    """Every call of <= max_args arguments; yields (args text, [probe], number of arguments)
+    where a probe is (offset in args text, pre (tuple of argument descriptors before the
+    slot), cur)."""
+    yield '', [(0, (), ('s3',))], 0
     for k in range(1, max_args + 1):
         for seq in itertools.product(forms, repeat=k):
             for trailing in ((False, True) if k == max_args else (False,)):
@@ -307,7 +308,7 @@ def call_texts(forms, max_args):
                     text += ' '
                     probes.append((len(text), pre, ('s3',)))
                     probes = probes[-2:]     # the other slots are probed by the plain text
-                yield text, probes
+                yield text, probes, k
 
 
 # ------------------------------------------------------------------ index oracle
